@@ -137,7 +137,7 @@ impl FeatureRangeFn {
 
                         use ::core::iter::Iterator;
                         #ident_iter_struct {
-                            inner: Self::#ident_table_enum[start_idx..=end_idx].iter().copied(),
+                            inner: Self::#ident_table_enum[if start_idx > end_idx { 0..0 } else { start_idx..end_idx + 1 }].iter().copied(),
                         }
                     }
                 },
@@ -203,7 +203,7 @@ impl FeatureRangeFn {
 
                         use ::core::iter::Iterator;
                         #ident_iter_struct {
-                            inner: Self::#ident_table_enum[start_idx..=end_idx].iter().copied(),
+                            inner: Self::#ident_table_enum[if start_idx > end_idx { 0..0 } else { start_idx..end_idx + 1 }].iter().copied(),
                         }
                     }
                 },
